@@ -91,7 +91,7 @@ func ntRule(r *proxyv1alpha1.DispatchPolicyRule) bool {
 // TestPropNormalisationPreservesMatching: generated policies, the real Admit, all probe requests.
 func TestPropNormalisationPreservesMatching(t *testing.T) {
 	sub := stats.NewSub("admit-preserves-matching", "rapid: UpstreamCluster with 1-3 policies x 1-3 rules (C01 rule generator, all eight fields) admitted by the real plugin (create or update); for every probe request RuleMatches(before)==RuleMatches(after) per rule and MatchPolicies picks the same index; Admit(Admit(x))==Admit(x); non-trivial = some rule has '*' among other entries, mixed positive/inverted entries, or duplicates; distinct by FNV-64 of the policy list")
-	stats.Check(t, stats.N(2500, 40000), func(t *rapid.T) {
+	stats.Check(t, stats.N(6000, 40000), func(t *rapid.T) {
 		policies := gen.GenPolicies(t, "policies", 3, 3)
 		extra := gen.GenRequest(t, "req")
 		op := admission.Create
